@@ -9,3 +9,5 @@ for s in "$@"; do
     echo "$out" | grep '^VIOLATION' | cut -c1-260 | head -5
   done
 done
+# known witnesses that no longer reproduce (to be turned into fixed / withdrawn)
+grep -ho "known finding F[0-9a-z]* no longer reproduces[^\"]*" evidence/*.json 2>/dev/null | sort | uniq -c
